@@ -208,8 +208,12 @@ class Ctx:
     """A device (lattice spec -> VirtualDevice, or a given device), the qubit ids in declared
     order, and the register: concrete, concrete-on-a-layout, or mappable."""
 
+    # declared in THIS order: not the lexicographic one
+    CUSTOM_IDS = ["zed", "b", "yak", "a", "x1", "m", "c", "w", "k", "e", "u", "g", "s", "i", "q", "d"]
+
     def __init__(self, spec: dict, mappable: bool = False, extra_ids: int = 0, extra_traps: int = 2,
-                 device=None, register=None, chan_ids=None, dmm_ids=None, with_layout: bool = False):
+                 device=None, register=None, chan_ids=None, dmm_ids=None, with_layout: bool = False,
+                 id_style: str = "default"):
         self.spec = spec
         self.mappable = mappable
         self.with_layout = with_layout
@@ -225,7 +229,9 @@ class Ctx:
             self.chan_ids = list(chan_ids if chan_ids is not None else device.channels)
             self.dmm_ids = list(dmm_ids if dmm_ids is not None else device.dmm_channels)
             self.nq = spec["nq"]
-        self.qids = [f"q{i}" for i in range(self.nq + (extra_ids if mappable else 0))]
+        nids = self.nq + (extra_ids if mappable else 0)
+        # "default": q0, q1, ... (from 11 ids on, q10 sorts before q2); "custom": unsorted names
+        self.qids = list(self.CUSTOM_IDS[:nids]) if id_style == "custom" else [f"q{i}" for i in range(nids)]
         # (a device accepts a layout filled to at most `max_layout_filling` = 0.5 by default)
         ntraps = 2 * len(self.qids) + extra_traps if (mappable or with_layout) else len(self.qids)
         self.coords = [(6.0 * (i % len(self.qids)), 7.0 * (i // len(self.qids))) for i in range(ntraps)]
@@ -1247,7 +1253,10 @@ def perturb(rng: random.Random, pool: VarPool, ctx: Ctx, strength: float = 1.0) 
             role = d["roles"][i]
             if d["dtype"] == "int":
                 if role == "idx":
-                    nv = rng.randrange(0, ctx.nq) if rng.random() < 0.9 * strength else v
+                    # (on a mappable register also indices of the extra declared ids: valid for the builds
+                    # that map enough qubits, IndexError -- in build and direct alike -- for the others)
+                    hi = len(ctx.qids) if (ctx.mappable and rng.random() < 0.5) else ctx.nq
+                    nv = rng.randrange(0, hi) if rng.random() < 0.9 * strength else v
                 else:
                     nv = v + rng.choice([0, 4, 8, 16, -4, 52, 100]) if rng.random() < strength else v
                 vals.append(int(nv))
